@@ -1,5 +1,7 @@
 """C08 (engine CL) - see RULE."""
 from vlib.engines import cl
+from vlib.engines import cons as _cons
+from vlib.engines import prod as _prod
 from vlib.engines.base import drive, run_trace
 
 PROP = "C08"
@@ -14,12 +16,35 @@ class Eng(cl.CLEngine):
         return bool(self.nt & NT) or bool(NT & self.labels)
 
 
+class ProdRec(_prod.PRODEngine):
+    """the last sentence of C08 through a running producer: after leader moves, restarts, refused connections and outages longer than the
+    request timeout, a send issued once the faults have ceased is acknowledged within the retry budget"""
+    BATCHING = "never"
+    MACROS = ["leadermove", "leadermove", "outage", "outage", "partial"]
+    MACRO_ONE_IN = 3
+
+    def nontrivial(self):
+        return "recovered-after-faults" in self.nt
+
+
+class ConsRec(_cons.CONSEngine):
+    """... and through a running consumer: it resumes delivering once the faults have ceased"""
+    MACROS = ["outage", "outage", "failfetch", "steady"]
+    MACRO_ONE_IN = 3
+
+    def nontrivial(self):
+        return "recovered-after-faults" in self.nt
+
+
 def shard(ctx):
+    drive(ctx, ProdRec, ctx.n(16 * 60, 16 * 1500), min_steps=8, max_steps=60, offset=8, props={"C08"})
+    drive(ctx, ConsRec, ctx.n(16 * 60, 16 * 1500), min_steps=8, max_steps=60, offset=9, props={"C08"})
     drive(ctx, Eng, ctx.n(16 * 250, 16 * 6000), min_steps=8, max_steps=70, props={"C08"})
 
 
 def replay(case, ctx):
-    run_trace(Eng, case, ctx, props={"C08"})
+    eng = {"PROD": ProdRec, "CONS": ConsRec}.get(case.get("engine") if isinstance(case, dict) else None, Eng)
+    run_trace(eng, case, ctx, props={"C08"})
 
 TECHNIQUE = "stateful property-based testing: histories of metadata replies (partial/full, topics erroring, leaders moving, brokers removed or re-addressed) interleaved with requests on the real KafkaClient; the cache view is compared with the delivered replies after every event"
 RULE = (
@@ -29,7 +54,7 @@ RULE = (
     "than the last witnessed one; after a full refresh with a non-empty broker list every broker-client connection to a node outside it is closed; broker "
     "clients dial only addresses a reply gave, never one older than the witnessed reply; after a failed send no request for the topic is written before a "
     "Metadata request covering it. non-trivial = >=2 delivered metadata replies, or a full refresh removing a connected broker, or a re-addressed broker; "
-    "distinct = distinct trace. The recovery clause (producing/consuming resume) is checked by the PROD and CONS engines."
+    "distinct = distinct trace. The recovery clause (producing/consuming resume) is checked with the PROD and CONS engines (ProdRec, ConsRec: leader moves, restarts, refused connections, script 'outage' = a leader unreachable for longer than the request timeout; after the faults cease a fresh send is acknowledged / the consumer delivers the rest of the log)."
     " Topics can be deleted and re-created with fewer partitions (ops tdel/tnew, script 'topicgone'); the reply a load consumed is matched by correlation id and address knowledge is ordered by delivery; an acks=0 success with an unwritten payload is a hidden failed send that must have invalidated the routing."
     " A failed send invalidates what it used: the failed payloads' topics, or - for OffsetCommit/OffsetFetch - the group's cached coordinator (no such request of a later call before a FindCoordinator for the group is written or a FindCoordinator reply for it is delivered). Metadata replies list partitions in ascending, descending or rotated order (md_order)."
 )
